@@ -213,7 +213,7 @@ func c13ConstWorker(e *Env) *res.Result {
 		n = 3000
 	}
 	var lastFail *res.Failure
-	hostile := []rune{'`', '"', '\\', '\n', '\r', '$', '\t', '{', '}', '\'', 'a', ' ', 0xfeff, 0x2028, 0x1F600, 0x7f, 0x1}
+	hostile := []rune{'`', '"', '\\', '\n', '\r', '$', '%', '\t', '{', '}', '\'', 'a', ' ', 0xfeff, 0x2028, 0x1F600, 0x7f, 0x1}
 	gen := rapid.Custom(func(t *rapid.T) string {
 		parts := rapid.SliceOfN(rapid.OneOf(
 			rapid.Map(rapid.SampledFrom(hostile), func(r rune) string { return string(r) }),
@@ -287,7 +287,7 @@ func c13ServedMain(e *Env) (*res.Result, error) {
 	}
 	disabled := disabledTags()
 	forms := specgen.BaseForms()
-	hostile := []string{"`", "a`b\n", "\"quoted\"", `back\slash`, "tab\there", "line1\r\nline2\r\n", "no newline at end", "\ufeffwith bom\n", "`+\"`\"+`", "${x} $$ `\n`", "multi\nline\n", "\r", "a\\nb", "x\n\"y\"\n`z`\n\\"}
+	hostile := []string{"`", "a`b\n", "\"quoted\"", `back\slash`, "tab\there", "line1\r\nline2\r\n", "no newline at end", "\ufeffwith bom\n", "`+\"`\"+`", "${x} $$ `\n`", "multi\nline\n", "\r", "a\\nb", "x\n\"y\"\n`z`\n\\", "100% off\n", "%s %d %v %% %!(EXTRA)", "q=red%20shoes&x=%2F\n"}
 	specs := collect(e, "C13", n, func(t *rapid.T) PkgSpec {
 		c := specgen.NewCtx(t, disabled)
 		bf := rapid.SampledFrom(forms).Draw(t, "baseform")
